@@ -558,7 +558,10 @@ pub fn in_domain(op: &Op, args: &[(&[usize], &[f64])]) -> bool {
         Op::Recip => within(args[0].1, 0.25, 4.0),
         Op::Div => within(args[1].1, 0.25, 4.0),
         Op::Powf(p) => {
-            if p.fract() == 0.0 {
+            if p.fract() == 0.0 && *p >= 1.0 {
+                // a positive integer power is smooth everywhere, zero included
+                args[0].1.iter().all(|x| x.abs() <= 4.0)
+            } else if p.fract() == 0.0 {
                 within(args[0].1, 0.25, 4.0)
             } else {
                 args[0].1.iter().all(|x| *x >= 0.25 && *x <= 4.0)
